@@ -1338,7 +1338,12 @@ def compile_match_expression(compiler, expr, root, subject, clauses):
         )
 
     expr_name = asty.Name(expr, id=return_var.id, ctx=ast.Load())
-    returnable = Result(expr=expr_name, temp_variables=[expr_name, return_var])
+    # As for `with`, we don't give the Result any temp_vars because we
+    # don't want Result.rename to touch `return_var`. Otherwise, the
+    # initial assignment of `None` would clobber any preexisting value of
+    # the renamed-to variable before the subject is evaluated, as in
+    # `(setv x (match x …))`.
+    returnable = Result(expr=expr_name)
     ret = Result() + subject
     ret += asty.Assign(
         expr, targets=[return_var], value=asty.Constant(expr, value=None)
